@@ -1,5 +1,12 @@
 // plain data types of the repo that several groups need
 //@ item! src/wasm.rs :: struct WasmSudo
+//@ impl_open src/wasm.rs :: WasmSudo
+//@ end
+//@ fn src/wasm.rs :: WasmSudo :: new
+//@   ret r
+//@   ensures [C01.wasm_sudo_new.sem,C17] match r { Ok(w) => spec_json_ok(*msg) && w == (WasmSudo { contract_addr: *contract_addr, message: spec_json(*msg) }), Err(_) => !spec_json_ok(*msg) }
+//@ end
+}
 //@ item! src/bank.rs :: enum BankSudo
 //@ item! src/staking.rs :: enum StakingSudo
 //@ item! src/app.rs :: enum SudoMsg
